@@ -304,6 +304,12 @@ func (s *Session) Exec(line string) (obs string, viol string) {
 			if found && err == nil {
 				got = s.Cfg.ValNat(v)
 			}
+		case "long":
+			var v LV
+			found, err = m.Get(s.ctx, s.Cfg.Key(k), &v)
+			if found && err == nil {
+				got = s.Cfg.ValNat(v)
+			}
 		case "iface":
 			var v IV
 			found, err = m.Get(s.ctx, s.Cfg.Key(k), &v)
